@@ -292,7 +292,7 @@ def gen(ctx, cs):
         cs.add_dec(s, ('%d,0' % k) if k else '0', 'split-zero-read')
 
     # ---- (d) random frames, random plans ----
-    nrand = 40000 if thorough else 900
+    nrand = 40000 if thorough else 900 * ctx.scale
     maxlen = (1 << 20) if thorough else 65600
     nbig = 0
     for i in range(nrand):
